@@ -3,29 +3,41 @@
 (* explicit-bucket part): every sequence of <= MaxSteps Record / Collect       *)
 (* operations over Vals for the boundary list Bounds.  Every edge is printed   *)
 (* and replayed on the real SDK (several concretizations of the ranks).        *)
-EXTENDS HistModel, TLC, Json
+(* Collect names the class of destination memory it writes into (HistOutput):  *)
+(* the reported point must not depend on it (ReportIndep, checked for every     *)
+(* explored accumulator state x every previous occupant of the slot).           *)
+EXTENDS HistModel, HistOutput, TLC, Json
 
 CONSTANTS Bounds,      \* strictly increasing sequence of ranks
           Vals,        \* sequence of abstract values [r, p, k]
-          Cumulative, MaxSteps
+          Cumulative, MaxSteps,
+          NoSum,       \* the stream collects no sum (UpDownCounter / Gauge instrument kinds)
+          NoMinMax,    \* AggregationExplicitBucketHistogram.NoMinMax
+          OutVariant   \* "code", or a named faulty output path (HistOutput)
 
 VARIABLES hist, steps, act
 vars == <<hist, steps, act>>
 
 HVals(h) == [i \in 1..Len(h) |-> Vals[h[i]]]
-Pt(h) == HistPoint(HVals(h), Bounds)
+Raw(h) == HistPoint(HVals(h), Bounds)
+(* what a reader reports for the accumulator, given what the stream collects *)
+Flag(p) == IF ~p.present THEN p
+           ELSE [p EXCEPT !.min = IF NoMinMax THEN -2 ELSE @, !.max = IF NoMinMax THEN -2 ELSE @,
+                          !.sumq = IF NoSum THEN 0 ELSE @]
+Pt(h) == Flag(Raw(h))
 
-Init == hist = <<>> /\ steps = 0 /\ act = [op |-> "Init", i |-> 0]
+Init == hist = <<>> /\ steps = 0 /\ act = [op |-> "Init", i |-> 0, d |-> ""]
 
 Record == \E i \in 1..Len(Vals) :
             /\ steps < MaxSteps
             /\ hist' = Append(hist, i)
             /\ steps' = steps + 1
-            /\ act' = [op |-> "Record", i |-> i]
+            /\ act' = [op |-> "Record", i |-> i, d |-> ""]
 
-Collect == /\ steps < MaxSteps
+Collect == \E d \in ODestClasses :
+           /\ steps < MaxSteps
            /\ steps' = steps + 1
-           /\ act' = [op |-> "Collect", i |-> 0]
+           /\ act' = [op |-> "Collect", i |-> 0, d |-> d]
            /\ hist' = IF Cumulative THEN hist ELSE <<>>
 
 Next == Record \/ Collect
@@ -37,14 +49,16 @@ EmitEdge == PrintT("EDGE " \o ToJson([from |-> EdgeState(hist, steps), act |-> a
 
 (* the statement on the model point *)
 Inv == LET p == Pt(hist) H == HVals(hist) IN
-       /\ HistClauses(p @@ [boundsok |-> TRUE], H, Bounds, TRUE) = {}
+       /\ HistClauses(p @@ [boundsok |-> TRUE, sumz |-> p.sumq = 0], H, Bounds, TRUE, NoSum, NoMinMax) = {}
        /\ p.present =>
             /\ Len(p.counts) = Len(Bounds) + 1
             /\ HSumSeq(p.counts) = p.count
             /\ \A j \in 1..Len(H) : InBucket(Bounds, H[j].p, Bucket(Bounds, H[j].p))
             /\ \A j \in 1..Len(H) : \A t \in 1..(Len(Bounds) + 1) :
                    InBucket(Bounds, H[j].p, t) => t = Bucket(Bounds, H[j].p)
-            /\ \A j \in 1..Len(H) : p.min <= H[j].r /\ H[j].r <= p.max
+            /\ ~NoMinMax => \A j \in 1..Len(H) : p.min <= H[j].r /\ H[j].r <= p.max
+(* the reported point is a function of the accumulator only, whatever the destination held *)
+ReportIndep == OReportIndepH(Raw(hist), Bounds, NoSum, NoMinMax, OutVariant)
 CountsGrow == [][(act'.op = "Record" /\ hist # <<>>) =>
                    \A t \in 1..(Len(Bounds) + 1) : Pt(hist').counts[t] >= Pt(hist).counts[t]]_vars
 =============================================================================
